@@ -127,3 +127,29 @@ def _stmt_list(node: ast.AST):
         if isinstance(lst, list) and any(x is cur for x in lst):
             return lst
     return None
+
+
+def headerset_order_rule(ctx: Ctx, rule: str) -> int:
+    """in a HeaderSet method that both drops a key from the lower-case set and adds one, the drop comes first: a drop
+    that can run after the add deletes the key that was just added when both spell the same token."""
+    hs = ctx.repo.cls("datastructures.structures.HeaderSet")
+    n = 0
+    for name, fi in sorted(hs.methods.items()):
+        if name == "__init__":
+            continue
+        cfg = cfg_of(fi)
+        adds = [c for c in astq.calls(fi.node, nested=False) if isinstance(c.func, ast.Attribute) and astq.is_self_attr(c.func.value, "_set") and c.func.attr in ("add", "update")]
+        drops = [c for c in astq.calls(fi.node, nested=False) if isinstance(c.func, ast.Attribute) and astq.is_self_attr(c.func.value, "_set") and c.func.attr in ("remove", "discard", "pop", "difference_update")]
+        if not adds or not drops:
+            continue
+        n += 1
+        bad = []
+        for a in adds:
+            an = cfg.node_of(a)
+            r = cfg.reach(an)
+            for d in drops:
+                dn = cfg.node_of(d)
+                if dn is not None and an is not None and dn is not an and dn.id in r:
+                    bad.append(f"`{norm(d)}` can run after `{norm(a)}`")
+        ctx.ob(rule, f"HeaderSet.{name}: a key is dropped from the lower-case set before the new key is added", not bad, "; ".join(bad) or "every drop precedes every add", fi, fi.node, f"HeaderSet.{name} drop-before-add")
+    return n
